@@ -38,6 +38,12 @@ func c18MixedCase(l *Lab, rep *Report, w *c18World) {
 		for _, sp := range []string{"OpenID", "OPENID", "Openid"} {
 			cells = append(cells, cell{"openid-without-tokenauth", []string{sp}, "disable", false, false, env})
 		}
+		// an authentication list that is present but names nothing (empty, or only empty / blank entries):
+		// a fallback to the default mechanism behind the consistency checks would put OpenID in effect
+		// without cookie authentication
+		for _, lst := range [][]string{{}, {""}, {" "}, {"", ""}} {
+			cells = append(cells, cell{"openid-without-tokenauth", lst, "disable", false, false, env})
+		}
 	}
 	for ci, c := range cells {
 		g := &GWConfig{ExpectExit: true, Hosts: w.hostList, HostSelection: "roundrobin", IdP: w.idp, AuthSocket: "/nonexistent/auth.sock",
